@@ -5,9 +5,9 @@ use std::collections::BTreeSet;
 use syn::visit::{self, Visit};
 
 /// builtin methods that mutate their receiver
-pub const MUTATING_METHODS: &[&str] = &["resize", "copy_from_slice", "push", "extend_from_slice", "clear", "truncate", "reverse", "insert", "remove"];
+pub const MUTATING_METHODS: &[&str] = &["resize", "copy_from_slice", "push", "extend_from_slice", "clear", "truncate", "reverse", "insert", "remove", "push_back"];
 /// methods that mutate their receiver and yield a value (handled in expression position)
-pub const MUTATING_VALUE_METHODS: &[&str] = &["next"];
+pub const MUTATING_VALUE_METHODS: &[&str] = &["next", "pop_front"];
 
 pub struct Assigned<'a> {
     scopes: Vec<BTreeSet<String>>,
